@@ -3,6 +3,13 @@
 // subclasses collected explicitly, driven by the op lines the Lean model driver (lean/Driver/C06.lean) also reads.
 //
 //   met cfg <D|C,...> <views: n:c|n:u,... or -> ; create <name> <cl|cd|ul|ud> ; add <handle> <attr> <value> ; collect <r>
+//       ; race <handle> <threads T> <adds N> <r> <collections K>
+//
+// `race` is the supporting real-thread run for "measurements recorded concurrently with collections": reader r
+// collects once, then T recorder threads each Add 1 unit N times (thread t to attribute set t%3+1) through the handle
+// while the main thread collects K-1 more times for r; after the join one more unit is added (set 1) and r collects a
+// last time.  Printed per stream: for a delta reader the sum of all points of these K+1 collections, for a cumulative
+// reader the points of the last one - both independent of the schedule exactly when nothing is lost or duplicated.
 //
 // Time stamps are canonicalised: "sdk" = MeterContext::GetSDKStartTime(), "#k" = the stamp taken by the k-th
 // collection (the harness makes the system clock advance around every collection, so the windows are disjoint
@@ -13,6 +20,7 @@
 #include <chrono>
 #include <cmath>
 #include <map>
+#include <thread>
 
 #include "opentelemetry/common/key_value_iterable_view.h"
 #include "opentelemetry/metrics/meter.h"
@@ -348,6 +356,82 @@ static std::string handle_met(const std::vector<std::string> &t)
       for (auto &md : got) mds.push_back(show_md(w, md));
       std::sort(mds.begin(), mds.end());
       outs.push_back("[" + vh::join(mds, " | ") + "]");
+    }
+    else if (op.size() == 6 && op[0] == "race")
+    {
+      long long hd, T, N, r, K;
+      if (!parse_nat(op[1], hd) || !parse_nat(op[2], T) || !parse_nat(op[3], N) || !parse_nat(op[4], r) ||
+          !parse_nat(op[5], K))
+        return "bad-op";
+      if (static_cast<size_t>(hd) >= w.handles.size() || T < 1 || T > 4 || N > 5000 ||
+          static_cast<size_t>(r) >= w.readers.size() || K < 1 || K > 64)
+        return "bad-op";
+      Handle &h   = *w.handles[hd];
+      auto add_one = [&h](long long a) {
+        with_attrs(a, [&](const common::KeyValueIterable &kv) {
+          if (h.cl) h.cl->Add(static_cast<uint64_t>(1), kv);
+          else if (h.cd) h.cd->Add(1.0 / 1024.0, kv);
+          else if (h.ul) h.ul->Add(static_cast<int64_t>(1), kv);
+          else h.ud->Add(1.0 / 1024.0, kv);
+        });
+      };
+      bool delta = w.readers[r]->GetAggregationTemporality(sdkm::InstrumentType::kCounter) ==
+                   sdkm::AggregationTemporality::kDelta;
+      std::map<std::string, std::map<long long, long long>> acc;  // label -> attr -> units
+      bool bad = false;
+      auto collect_once = [&]() {
+        TimeNs before = tick();
+        std::vector<sdkm::MetricData> got;
+        w.readers[r]->Collect([&](sdkm::ResourceMetrics &rm) {
+          for (auto &sm : rm.scope_metric_data_)
+            for (auto &md : sm.metric_data_) got.push_back(md);
+          return true;
+        });
+        TimeNs after = tick();
+        w.windows.emplace_back(before, after);
+        for (auto &md : got)
+        {
+          std::string text = show_md(w, md);  // "label T start end {a=v,...}"
+          size_t sp = text.find(' '), br = text.find('{');
+          std::string label = text.substr(0, sp);
+          auto &m           = acc[label];
+          if (!delta) m.clear();
+          std::string body = text.substr(br + 1, text.size() - br - 2);
+          if (body.empty()) continue;
+          for (auto &kv : split(body, ','))
+          {
+            auto p = split(kv, '=');
+            long long a, v;
+            if (p.size() != 2 || !parse_nat(p[0], a) || !parse_int(p[1], v)) { bad = true; continue; }
+            if (delta) m[a] += v;
+            else m[a] = v;
+          }
+        }
+      };
+      collect_once();
+      std::vector<std::thread> threads;
+      for (long long t = 0; t < T; t++)
+        threads.emplace_back([&, t]() {
+          for (long long i = 0; i < N; i++) add_one(t % 3 + 1);
+        });
+      for (long long k = 1; k < K; k++) collect_once();
+      for (auto &t : threads) t.join();
+      add_one(1);
+      collect_once();
+      std::vector<std::string> parts;
+      for (auto &lm : acc)
+      {
+        std::string s = lm.first + " {";
+        bool first    = true;
+        for (auto &av : lm.second)
+        {
+          s += (first ? "" : ",") + std::to_string(av.first) + "=" + std::to_string(av.second);
+          first = false;
+        }
+        parts.push_back(s + "}");
+      }
+      std::sort(parts.begin(), parts.end());
+      outs.push_back(std::string(bad ? "race? [" : "race [") + vh::join(parts, " | ") + "]");
     }
     else
       return "bad-op";
